@@ -4,7 +4,8 @@ SPEC = {
     "harness": {
         "pkg": "c18",
         "shims": {"security": "internal/security"},
-        "runs": [{"args": [], "corpus": "", "timeout": 1200}],
+        "runs": [{"args": [], "corpus": "witness", "timeout": 1200},
+                 {"args": ["-mode", "race"], "corpus": "race", "timeout": 1200}],
     },
     "rule": ("scripted time lines on the real clock (20 ms grid, every configured duration 20k+10 ms, a case is re-run when an "
              "event misses its instant by more than 7 ms) against the real BruteForceProtector (fail/success/query/cleanup/"
@@ -13,7 +14,11 @@ SPEC = {
              "refill) and ServerAuthHandler.HandleHandshake (7 kinds of attempts, list changes and asynchronous steps in between); "
              "generators: random mixes with gaps at the window/ban/TTL boundaries, threshold-then-expiry-then-reban with late unban, "
              "permanent-then-success-then-failures, window pruning around the threshold, expired-entry shadowing; "
-             "non-trivial = more than five events; distinct = distinct case strings"),
+             "non-trivial = more than five events; distinct = distinct case strings; "
+             "second run = racing rounds (200 quick / 5000 thorough, plus a quarter of that under the protector's own ticker): 600 "
+             "addresses with an elapsed, unswept ban, 8 goroutines add the threshold-reaching failure to each while the real "
+             "cleanup() runs; every address whose RecordFailure reported a ban must answer IsBanned=true (observation `lost k`, "
+             "judged by holdsBF on the least favourable scan/failure/delete placement); hit statistics in the distribution"),
     "trusted_base": [
         "Lean 4.33 kernel; axioms propext, Classical.choice, Quot.sound only (audited per theorem on every run)",
         "extractor /verif/extract: defaults, config literals, BanRecord.isExpired / IPRecord.isExpired and 17 call skeletons "
@@ -25,8 +30,10 @@ SPEC = {
     "assumptions": [
         "WF: time stamps non-decreasing and >= 1; 0 < BanDuration (a zero duration is the permanent-ban call); "
         "Burst*U <= Rate*TTL for the rate bound (the defaults satisfy both, by decide); excluded points are run and reported",
-        "atomic steps = one mutex critical section (RecordFailure = mu section, then banIP); tied by the call skeletons; the harness "
-        "cannot pause RecordFailure between its sections, that interleaving is covered by the proof only",
+        "atomic steps = one mutex critical section (RecordFailure = mu section, then banIP; cleanup = mu section, then one banMu "
+        "section); tied by the call skeletons; the theorem also covers cleanup cut into cleanFr/cleanBan and a sweep cut into "
+        "scan and re-checking delete phase; the harness cannot pause inside a call: those interleavings are covered by the proof, "
+        "and cleanup-vs-ban additionally by the racing run (probabilistic search, can only find, never establish)",
         "float64 token arithmetic is modelled by exact integers in 1/U token; two time.Now() calls inside one call are one instant",
         "IPv4 addresses in canonical text; a whitelisted address is allowed by design (whitelist has priority)",
         "admin calls BanIP/UnbanIP/Reset and storage persistence of the lists are outside the time lines",
